@@ -1,10 +1,7 @@
 //! `simcheck` — deterministic simulation checks for LSP4SPL.
 //! The server modules below are the repository's own files (symlink farm, see mklinks.sh).
 #![recursion_limit = "512"]
-// `h` first: the harness's own thread-locals are real ones (srv_mods.rs brings a `thread_local!`
-// into scope that maps the server's onto simulated threads)
 pub mod h;
-include!("srv_mods.rs");
 
 use h::core::Tier;
 use h::driver::{self, PropDef};
@@ -164,3 +161,8 @@ fn main() {
         _ => usage(),
     }
 }
+
+// The server's modules come LAST: srv_mods.rs brings macros into scope (`thread_local!` mapped onto
+// simulated threads, `println!`/`print!` into the simulated stdout pipe) that must reach the
+// server's modules only, not the harness (macro_rules scope is textual: from the definition on).
+include!("srv_mods.rs");
